@@ -461,48 +461,44 @@ impl Driver {
         }
     }
 
-    /// Let every actor run to completion so that the threads can be reused.
+    /// Let every actor run to completion so that the threads can be reused.  Works from the slots,
+    /// not from the harness' own bookkeeping, so that it also recovers after a step that failed
+    /// half way (an actor parked at a hook the schedule did not expect).
     fn cleanup(&self, sc: &mut Sched) -> Result<(), String> {
-        for i in 0..sc.nclients {
-            match sc.h[i] {
-                H::One(_) => {
-                    hooks::release(i as u64);
-                    hooks::release(i as u64);
-                }
-                H::Loaded => hooks::release(i as u64),
-                _ => {}
-            }
-        }
-        if sc.admin_mid {
-            hooks::release(ADMIN as u64);
-            if !self.sh.wait_until(ADMIN, |s| s.s == S::Done, STEP_TIMEOUT_MS) {
-                return Err("cleanup: resume() did not return".into());
-            }
-        }
-        self.sh.m.lock().unwrap()[ADMIN].s = S::Idle;
         let deadline = Instant::now() + Duration::from_millis(STEP_TIMEOUT_MS);
         loop {
-            let busy = {
+            let (admin_busy, busy): (bool, Vec<usize>) = {
                 let g = self.sh.m.lock().unwrap();
-                (0..sc.nclients).any(|i| sc.h[i] != H::Idle && g[i].s != S::Done)
+                (g[ADMIN].s == S::Running, (0..MAXC).filter(|i| g[*i].s == S::Running || g[*i].s == S::Blocked).collect())
             };
-            if !busy {
+            if !admin_busy && busy.is_empty() {
                 break;
             }
             if Instant::now() > deadline {
-                return Err("cleanup: a client never returned from wait_paused() despite repeated resume()".into());
+                return Err("cleanup: an actor never returned (client stuck in wait_paused() despite repeated resume(), or resume() stuck)".into());
             }
-            // the main thread has no actor id: hook points are transparent for it
-            for p in &sc.pools {
-                p.resume();
+            if admin_busy {
+                hooks::release(ADMIN as u64);
+            }
+            for i in busy {
+                hooks::release(i as u64); // surplus tickets are dropped by hooks::reset()
+            }
+            if !admin_busy {
+                // the main thread has no actor id: hook points are transparent for it
+                for p in &sc.pools {
+                    p.resume();
+                }
             }
             std::thread::sleep(Duration::from_millis(1));
         }
         let mut g = self.sh.m.lock().unwrap();
-        for i in 0..sc.nclients {
+        for i in 0..=MAXC {
             g[i].s = S::Idle;
+        }
+        for i in 0..sc.nclients {
             sc.h[i] = H::Idle;
         }
+        sc.admin_mid = false;
         Ok(())
     }
 
